@@ -317,6 +317,7 @@ func c10Law(argv []string) error {
 	cli := fs.String("cli", "", "rare binary")
 	clin := fs.Int("clin", 60, "CLI sample size")
 	sum := fs.String("summary", "law-summary.json", "summary")
+	nprobe := fs.Int("probes", 6, "random processes for the probe law (each runs twice: optimising / plain compiler)")
 	fs.Parse(argv)
 	startWatchdog(60 * time.Second)
 	color.Enabled = true
@@ -415,8 +416,14 @@ func c10Law(argv []string) error {
 		templates++
 	}
 
+	// ---- phase 2b: the probe law (child processes: they run beside the phases below)
+	var probeSum M
+	w2 := &pendingWriter{}
+	probeDone := make(chan bool)
+	go func() { probeSum = lawProbe(w2, *dir, *nprobe, *rounds); close(probeDone) }()
+
 	// ---- phase 3: random funcs files, call = inlined body
-	calls := callInline(w, *dir, *nfiles)
+	calls, badStats := callInline(w, *dir, *nfiles)
 
 	// ---- phase 4: concurrent evaluators
 	conc := concurrent(w, e, *rounds)
@@ -429,12 +436,16 @@ func c10Law(argv []string) error {
 
 	// ---- phase 1, second half
 	volFinish(w, vs)
+	<-probeDone
+	for i := range w2.pending {
+		w.eq(w2.pending[i].what, w2.pending[i].f, w2.pending[i].a, w2.pending[i].b, w2.pending[i].info)
+	}
 
 	distinct := len(w.recs)
 	w.flush()
 	vh.WriteJSON(*sum, M{"helpers": len(names), "helpers_without_table_entry": unknown, "templates": templates, "records": distinct,
 		"observations": sumCounts(w.counts), "per_what": w.perWhat, "per_func": w.perFunc, "call_sites": calls, "concurrent": conc, "cli_runs": cliRuns,
-		"vol_expressions": len(vs.items)})
+		"vol_expressions": len(vs.items), "probe": probeSum, "bad_files": badStats})
 	return nil
 }
 
@@ -798,9 +809,20 @@ func randLayout(r *rand.Rand, defs []fdef) string {
 	return sb.String()
 }
 
-func callInline(w *lawWriter, dir string, nfiles int) int {
+// definitions that do not compile (the loader reports them and goes on; the others must be delivered and work)
+func randBadDef(r *rand.Rand, k int, failed []string) fdef {
+	bodies := []string{"{summi {0} 1}", "{sumi {0} 1", "x{}y", "{nosuchfn {0} a}", "{sumi 1}", "{substr a}", "pre {upperr {0}} post", "{if {0} {eq {0}", "{coalesce {0} {nofn {1} 2}}"}
+	body := bodies[r.Intn(len(bodies))]
+	if len(failed) > 0 && r.Intn(3) == 0 { // a call of a definition that itself failed
+		body = "{" + failed[r.Intn(len(failed))] + " {0} 1}"
+	}
+	return fdef{name: fmt.Sprintf("bad%d", k), body: traw(body), nargs: 1}
+}
+
+func callInline(w *lawWriter, dir string, nfiles int) (int, M) {
 	r := vh.NewRand(20)
 	calls := 0
+	badFiles, badDefs, badCalls := 0, 0, 0
 	for fi := 0; fi < nfiles; fi++ {
 		var defs []fdef
 		nd := 3 + r.Intn(4)
@@ -836,11 +858,28 @@ func callInline(w *lawWriter, dir string, nfiles int) int {
 			}
 			defs = append(defs, cand)
 		}
-		text := randLayout(r, defs)
+		// every second file also holds one to three definitions that do not compile, anywhere between the others
+		fileDefs := append([]fdef{}, defs...)
+		hasBad := fi%2 == 1
+		if hasBad {
+			badFiles++
+			var failed []string
+			for k := 0; k < 1+r.Intn(3); k++ {
+				bd := randBadDef(r, k, failed)
+				failed = append(failed, bd.name)
+				at := r.Intn(len(fileDefs) + 1)
+				if k == 0 && r.Intn(3) == 0 {
+					at = 0
+				}
+				fileDefs = append(fileDefs[:at], append([]fdef{bd}, fileDefs[at:]...)...)
+				badDefs++
+			}
+		}
+		text := randLayout(r, fileDefs)
 		p := filepath.Join(dir, fmt.Sprintf("rand-%d.funcs", fi))
 		os.WriteFile(p, []byte(text), 0o644)
 		e := loadEnv(fmt.Sprintf("rand-%d", fi), p)
-		loadedAll := e.loadErr == "" && e.panicMsg == "" && len(e.names) == len(defs)
+		loadedAll := (e.loadErr == "" || hasBad) && e.panicMsg == "" && len(e.names) == len(defs)
 		// the loader must have registered every definition: recorded as a law record too (a = names loaded, b = names written)
 		var want []string
 		for _, d := range defs {
@@ -882,6 +921,9 @@ func callInline(w *lawWriter, dir string, nfiles int) int {
 			}
 			ctpl, itpl := call.print(true), inl.print(true)
 			calls++
+			if hasBad {
+				badCalls++
+			}
 			for _, opt := range []bool{true, false} {
 				cc, ic := e.compile(ctpl, opt), e.compile(itpl, opt)
 				for _, c := range []lawCtx{
@@ -899,7 +941,7 @@ func callInline(w *lawWriter, dir string, nfiles int) int {
 			}
 		}
 	}
-	return calls
+	return calls, M{"files_with_failing_definitions": badFiles, "failing_definitions": badDefs, "call_sites_in_such_files": badCalls}
 }
 
 // ---------------------------------------------------------------------------- concurrent evaluators
